@@ -146,6 +146,10 @@ var c02Model = &vlib.Check{
 
 func init() {
 	vlib.Register(c02Model)
+	genModelStructured = func(r vlib.Rnd) *vlib.Project {
+		c, _, _ := genModelCaseT(r, false, true)
+		return c.Project
+	}
 	genModelDoc = func(r vlib.Rnd) *vlib.Project {
 		c, _, _ := genModelCase(r, false)
 		return c.Project
